@@ -187,6 +187,14 @@ def run(ctx):
                 (b'', []),
                 (bytes([0xF0, 0xF7, 0xF0, 0xF7, 0xFE, 0xF0, 0x7F, 0xF7]), [(), (), (127,)]),
             ]
+            # every defined real-time byte at every position inside and around a sysex: dropped, sysex intact
+            for rb in (0xF8, 0xFA, 0xFB, 0xFC, 0xFE, 0xFF):
+                body = [0xF0, 1, 2, 3, 0xF7]
+                for pos in range(1, len(body) + 1):     # the first byte selects the format: keep F0 there
+                    raw = body[:pos] + [rb] + body[pos:] + [0xF0, 0x7F, 0xF7]
+                    bins.append((bytes(raw), [(1, 2, 3), (127,)]))
+                    bins.append((' '.join(f'{b:02X}' for b in raw).encode('ascii'), [(1, 2, 3), (127,)]))
+                bins.append((bytes([0xF0, rb, rb, 0xF7, rb]), [()]))
             for raw, want in bins:
                 path = os.path.join(d, f'b{ctx.count_files}.syx')
                 ctx.count_files += 1
